@@ -117,6 +117,9 @@ MODULE_ALIASES = {
 }
 
 
+UFUNCS_WITH_OUT = {"numpy.add", "numpy.subtract"}
+
+
 def module_env_from_ast(tree):
     """Static name resolution through the module's import table and top-level definitions."""
     env = {}
@@ -748,12 +751,20 @@ class Prims:
             else:
                 args.append(self.eval1(ex, a, st))
         kwargs = {}
+        out_name = None
         for kw in node.keywords:
             if kw.arg is None:
                 kwargs.update(self.eval1(ex, kw.value, st))
             else:
                 kwargs[kw.arg] = self.eval1(ex, kw.value, st)
-        return self.call(ex, st, fn, args, kwargs, node)
+                if kw.arg == "out" and isinstance(kw.value, ast.Name) and isinstance(fn, ModRef) and fn.path in UFUNCS_WITH_OUT:
+                    out_name = kw.value.id
+        res = self.call(ex, st, fn, args, kwargs, node)
+        if out_name is not None:
+            # ufunc(..., out=x) writes its result into x (and returns x): the variable is rebound to the new content
+            for s2, v in res:
+                s2.vars[out_name] = v
+        return res
 
     def call(self, ex, st, fn, args, kwargs, node):
         if isinstance(fn, ModRef) and fn.path.startswith("flox.") and fn.path not in self.models:
@@ -927,6 +938,9 @@ class Prims:
         R("typing.cast", lambda ex, st, a, k, n: a[1])  # dropped by extraction: cast(T, x) -> x
         R("numpy.concatenate", lambda ex, st, a, k, n: seq_concat(a[0][0], a[0][1]) if len(a[0]) == 2 else (_ for _ in ()).throw(Unsupported("concatenate of other than two arrays")))
         R("builtins.slice", lambda ex, st, a, k, n: slice(*a))
+        R("numpy.add", lambda ex, st, a, k, n: self.m_ufunc2(ex, st, ast.Add(), a, k, n))
+        R("numpy.subtract", lambda ex, st, a, k, n: self.m_ufunc2(ex, st, ast.Sub(), a, k, n))
+        R("numpy.empty_like", self.m_empty_like)
         R("builtins.reversed", lambda ex, st, a, k, n: list(reversed(a[0])) if isinstance(a[0], (list, tuple, range)) else (SSeq(a[0].length, lambda i, s_=a[0]: s_.fn(s_.length - 1 - i), kind=a[0].kind, elem_sort=a[0].elem_sort) if isinstance(a[0], SSeq) else (_ for _ in ()).throw(Unsupported("reversed of an opaque value"))))
         R("numpy.full", self.m_full)
         R("numpy.where", self.m_where)
@@ -1075,6 +1089,24 @@ class Prims:
         if isinstance(x, SSeq):
             return x.map(lambda v: self.contains(ex, st, test, v), B)
         raise Unsupported("isin on a concrete sequence")
+
+    def m_ufunc2(self, ex, st, op, a, k, node):
+        """np.add / np.subtract (ASSUMED elementwise); with out= and where=: positions where the mask is false keep out's content"""
+        r = self.binop(ex, st, op, a[0], a[1], node)
+        where, out = k.get("where"), k.get("out")
+        if where is None:
+            return r
+        if not (isinstance(out, SSeq) and isinstance(where, SSeq) and isinstance(r, SSeq)):
+            raise Unsupported("ufunc where= without an out array")
+        ex.oblige(st, z3.And(where.length == r.length, out.length == r.length), ex._name("broadcast", node), f"line {node.lineno}: where / out have the length of the result")
+        return SSeq(r.length, lambda i: z3.If(where.fn(i), r.fn(i), out.fn(i)), kind="array", elem_sort=r.elem_sort, name="ufunc_where")
+
+    def m_empty_like(self, ex, st, a, k, node):
+        x = a[0]
+        if not isinstance(x, SSeq):
+            raise Unsupported("np.empty_like of a non-array")
+        f = z3.Function(f"uninitialised!{fresh('e').decl().name()}", I, x.elem_sort)
+        return SSeq(x.length, lambda i: f(i), kind="array", elem_sort=x.elem_sort, name="empty_like")
 
     def m_where(self, ex, st, a, k, node):
         cond, x, y = a
